@@ -583,6 +583,18 @@ def _cumulative_budget(w: World, rep: Report, fields):
     construction time, never from a snapshot taken before the loop."""
     rep.rule('C07.R4c', 'sequential drivers carry the call-stack count of the tape that ran last into the next '
              'tape (cumulative budget; no snapshot from before the loop, no reset)', floor=1)
+    # the passes of one LOOP share a call budget: the body runs on ONE sub-tape built before the loop (its running
+    # count is what carries the calls of a pass into the next pass); a fresh sub-tape per pass starts each pass from
+    # the count the LOOP was entered with
+    lp_h = w.handler_for('OP_LOOP')
+    whiles = [x for x in ast.walk(lp_h.node) if isinstance(x, ast.While)]
+    inside = [c for wl in whiles for c in ast.walk(wl) if isinstance(c, ast.Call) and isinstance(c.func, ast.Name) and c.func.id == 'Tape']
+    carried = any(isinstance(x, (ast.Assign, ast.AugAssign)) and 'callstack_count' in ast.unparse(x.targets[0] if isinstance(x, ast.Assign) else x.target)
+                  for wl in whiles for x in ast.walk(wl))
+    ok_lp = bool(whiles) and (not inside or carried)
+    rep.check('C07.R4b', 'functions.OP_LOOP|passes-share-the-call-budget', ok_lp, line=lp_h.node.lineno, file=RELF,
+              why='' if ok_lp else 'the loop body gets a fresh sub-tape on every pass and the call count is not carried over: calls '
+              'made in one pass are not charged in the next, so a loop can make far more calls than the call-stack limit')
     for fi in w.repo.all_funcs(['functions']):
         if w.is_handler(fi) or fi.parent is not None:
             continue
